@@ -810,6 +810,27 @@ pub fn gen_fault(rng: &mut Rng, thorough: bool, out: &mut Vec<String>) {
             }
         }
     }
+    // a MEDIUM publish under parallel insertion without cache (so that the insertion reads, and sub-tasks two levels down
+    // have real work): a failing read in one sub-tree while tasks of the other are still running
+    for (cfg, par) in [("wv1", "static4"), ("exp", "static8")] {
+        if !thorough && cfg == "exp" {
+            continue;
+        }
+        out.push(format!("fx.reset {cfg} none {par}"));
+        out.push(format!("ck {}", key_hex(&rt)));
+        let names: Vec<Vec<u8>> = (0..26usize).map(|i| vec![0x76, i as u8, rng.below(256) as u8]).collect();
+        for u in &names {
+            for v in 1..=2u64 {
+                for fresh in [true, false] {
+                    out.push(format!("vrf {} {} {} {}", hex_or_dash(u), if fresh { "F" } else { "S" }, v, show_label(&vrf_label(&rt, cfg, u, fresh, v))));
+                }
+            }
+        }
+        let pairs = |rng: &mut Rng, r: std::ops::Range<usize>| r.map(|i| format!("{} {}", hex_or_dash(&names[i]), hex_or_dash(&rng.bytes(3)))).collect::<Vec<_>>().join(" ");
+        out.push(format!("fx.publish {}", pairs(rng, 0..12)));
+        // 6 updates and 14 insertions
+        out.push(format!("fx.enum {}", pairs(rng, 6..26)));
+    }
     // one LARGE publish (more than a thousand records in the commit), enumerated: whatever the storage manager
     // does with a big commit log, a rejected write must leave nothing behind
     let big: &[(&str, &str)] = if thorough { &[("wv1", "none"), ("exp", "default"), ("wv1", "1ms")] } else { &[("wv1", "none"), ("exp", "default")] };
